@@ -59,7 +59,11 @@ Proof.
     eapply literal_bad; eauto.
   - destruct graph; [discriminate|]. intros H Hc; inversion H; subst. discriminate.
   - destruct graph; [intros H Hc; inversion H; subst; discriminate|].
-    destruct a as [a'|], b as [b'|], c0 as [c'|]; try (intros _ _; eauto; fail). cbn [OP] in *. unfold sbind, bind.
+    destruct a as [a'|], b as [b'|], c0 as [c'|];
+      try (intros _ _; unfold bind;
+           repeat match goal with |- context [decode_term Generic ?w ?s0] => destruct (decode_term Generic w s0) as [[? ?]|] end;
+           eauto; fail).
+    cbn [OP] in *. unfold sbind, bind.
     destruct (sterm false a' s) as [[s1 ta]|c1] eqn:Ea.
     + destruct (sterm_sim _ _ _ _ _ _ HR Ea) as [st1 [D1 [R1 _]]]. rewrite D1.
       destruct (sterm false b' s1) as [[s2 tb]|c2] eqn:Eb.
